@@ -487,6 +487,11 @@ EXTRACT_REQ = "From PyrexLib Require Import DFT.\nFrom PyrexModel Require Import
 EXTRACT_CMD = 'Extraction "filt.ml" filter_frequencies apply_filters fft_l ifft_l fftfreq delay_response.'
 
 
+PINS = [("pyrex/signals.py", "Signal.filter_frequencies"), ("pyrex/signals.py", "Signal._get_filter_response"),
+        ("pyrex/signals.py", "FunctionSignal._apply_filters"), ("pyrex/signals.py", "FunctionSignal.filter_frequencies"),
+        ("pyrex/signals.py", "Signal.spectrum"), ("pyrex/signals.py", "Signal.frequencies"), ("pyrex/signals.py", "Signal.dt")]
+
+
 def run(ctx):
     ctx.rule = ("corr: random signals (length 2..257 odd/even, dt 1e-10..1 decimal and dyadic, grid offsets, gaussian/integer/impulse/"
                 "constant samples) x responses {unit, pure delay (whole and fractional samples, up to the window), one-pole low-pass, "
@@ -506,9 +511,11 @@ def run(ctx):
     ok = ctx.coq_build("C05")
     exe = dft_extract.build(ctx, "c05", EXTRACT_REQ, EXTRACT_CMD, "filt", "c05_driver.ml")
     before = len(ctx.failures)
+    # a hand-modelled function was edited since the model was written: re-validate harder
+    repin = bool(dft_extract.pins_changed(ctx, "C05", PINS))
     if exe:
-        correspondence(ctx, exe, ctx.n(260, 6000))
-    failed = (not ok) or exe is None or len(ctx.failures) > before or bool(ctx.broken)
+        correspondence(ctx, exe, ctx.n(1000 if repin else 260, 6000))
+    failed = (not ok) or exe is None or len(ctx.failures) > before or bool(ctx.broken) or repin
     if ctx.thorough or failed:
         probes(ctx, ctx.n(400, 2400), ctx.n(2048, 4096))
     else:
